@@ -28,7 +28,7 @@ var propPlans = []propPlan{
 		NotDecided: "PAT/PMT at the start of MPEG-TS segments (emitted inside mediacommon); 'never skipped when due' for inputs without random-access units; the contents of the init segment.",
 		LevelText:  "The cut condition, the pending-parameter typestate of the four video writers, forced-rotation marking and same-instant rotation of all streams are decided on every path; values are not."},
 	{ID: "C03", Title: "Playlist durations, target durations, date-times",
-		Rules:      []string{"CG0", "F1", "G4", "G4b", "G6", "G10", "N2", "S4"},
+		Rules:      []string{"CG0", "F1", "F15", "G4", "G4b", "G6", "G10", "N2", "S4"},
 		NotDecided: "equality of declared and actual media time (needs the samples); PART-TARGET >= every part beyond 'ceil of max over listed parts'.",
 		LevelText:  "Telescoping of durations, monotone target duration, rounding directions, hold-back/skip factors and text resolution are decided structurally."},
 	{ID: "C04", Title: "Playlist evolution",
@@ -36,7 +36,7 @@ var propPlans = []propPlan{
 		NotDecided: "the relation between two successive responses (a history property) beyond the per-step invariants; arithmetic on runtime counters.",
 		LevelText:  "Per-step inductive invariants of the window and its counters are decided on every path of the rotation functions."},
 	{ID: "C05", Title: "Advertised URIs are fetchable, immutable, consistent",
-		Rules:      []string{"CG0", "P1", "P2", "P3", "P3b", "P4", "P5", "F2", "T7", "T7b"},
+		Rules:      []string{"CG0", "P1", "P2", "P3", "P3b", "P4", "P5", "F2", "F15", "T7", "T7b", "T7c"},
 		NotDecided: "byte equality of a segment and its concatenated parts on disk (offset arithmetic); HTTP semantics outside the handlers.",
 		LevelText:  "Publication protocol: final before published, never written afterwards without the reader's lock, listed = registered, unregistered on expiry, response shape."},
 	{ID: "C06", Title: "Blocking reload, preload hints, delta updates",
@@ -52,11 +52,11 @@ var propPlans = []propPlan{
 		NotDecided: "absence of every panic (nil dereferences are not modelled); single-playlist invariants of a snapshot; monotonic views.",
 		LevelText:  "Every location shared between writer and request goroutines is co-locked or frozen before publication (lockset + ownership analysis over all contexts); no zero divisor in handler code."},
 	{ID: "C09", Title: "A Client reading a Muxer",
-		Rules:      []string{"CG0", "T4", "T5", "F11", "F12", "N3"},
+		Rules:      []string{"CG0", "T4", "T5", "T6", "F11", "F12", "F14", "N3"},
 		NotDecided: "sample identity, time-origin arithmetic, AbsoluteTime.",
 		LevelText:  "Agreement of the muxer's and the client's codec and rendition tables."},
 	{ID: "C10", Title: "Client delivers every sample with normalised time",
-		Rules:      []string{"CG0", "G5", "K6", "F8", "F11", "F12"},
+		Rules:      []string{"CG0", "G5", "K6", "F8", "F11", "F12", "F14"},
 		NotDecided: "all timestamp arithmetic (rescaling, 33-bit unwrap, NTP extrapolation); sample identity.",
 		LevelText:  "Thin: no negative-time delivery, all times through the leading converter, the stream/track hand-shake cannot wedge."},
 	{ID: "C11", Title: "Segment selection",
@@ -85,7 +85,7 @@ var propPlans = []propPlan{
 		NotDecided: "which rendition is DEFAULT for a given track list; bandwidth values; RESOLUTION/FRAME-RATE values.",
 		LevelText:  "Query preserved on every URI, rendition attributes carried, CODECS entry per track."},
 	{ID: "C17", Title: "Storage",
-		Rules:      []string{"T7", "T7b", "P6"},
+		Rules:      []string{"T7", "T7b", "T7c", "P6"},
 		NotDecided: "byte-for-byte equivalence, offsets, reader cursor logic.",
 		LevelText:  "Thin: no read before Finalize in both backends, mirror writer forwards identically, Remove removes what Create created."},
 	{ID: "C18", Title: "Bounded retention",
